@@ -256,6 +256,8 @@ func macroGraphFacts(n int, edges [][]int, roots []int) (cycleReachable bool, un
 			cycleReachable = true
 		}
 	}
+	undefFromRoots := undefinedReachable
+	defer func() { undefinedReachable = undefFromRoots }()
 	// any cycle anywhere (also unreachable ones)
 	for i := 0; i < n; i++ {
 		if state[i] == 0 {
